@@ -6,7 +6,7 @@
    the correspondence run.  Partial in that sense only. *)
 From Coq Require Import List ZArith Bool.
 Import ListNotations.
-From OV Require Import C42.Text C42.Flt C42.Model C42.TextLaws C42.DateLaws C42.StructLaws C42.Proofs C42.Oracle.
+From OV Require Import C42.Text C42.Flt C42.Model C42.TextLaws C42.DateLaws C42.StructLaws C42.Proofs C42.Oracle C42.Known2 C42.Canon.
 Open Scope Z_scope.
 
 (* Every in-scope built-in value (strings, byte strings, GUIDs, times with millisecond precision
@@ -24,6 +24,27 @@ Theorem C42_roundtrip_exact : forall a, inscope a = true -> no_known a -> has_na
   exists t, to_tree now a = Some t /\ of_tree now (fuel_for t) (kind a) t = Some a.
 Proof. exact value_rt_exact. Qed.
 Print Assumptions C42_roundtrip_exact.
+
+(* The known classes 1 and 2 described completely, so that nothing else can hide in them.
+   EVERY in-scope value that holds no array — an ExpandedNodeId with a namespace uri AND a non-zero
+   index included, at any nesting depth — has a JSON tree, and reading it gives the value back with
+   exactly this change: the namespace index of every ExpandedNodeId that has a namespace uri is 0
+   ([canon]; the JSON form has one Namespace field).  Outside class 2 [canon] is the identity. *)
+Theorem C42_roundtrip_any : forall a, inscope a = true -> holds_array a = false ->
+  exists t, to_tree now a = Some t /\ of_tree now (fuel_for t) (kind a) t = Some (norm (canon a)).
+Proof. exact value_rt_any. Qed.
+Print Assumptions C42_roundtrip_any.
+Theorem C42_canon_is_identity_outside_class_2 : forall a, no_known a -> canon a = a.
+Proof. exact canon_id. Qed.
+Print Assumptions C42_canon_is_identity_outside_class_2.
+Theorem C42_expanded_node_id_comes_back_canonical : forall x, xnodeid_ok x = true ->
+  xnodeid_of now (Some (xnodeid_tree now x)) = Some (x_canon x).
+Proof. exact xnodeid_rt_any. Qed.
+Print Assumptions C42_expanded_node_id_comes_back_canonical.
+(* ... and the serialiser panics on a value exactly when the value holds an array *)
+Theorem C42_serialiser_panics_exactly_on_arrays : forall a, to_tree now a = None <-> holds_array a = true.
+Proof. exact to_tree_panics_iff_array. Qed.
+Print Assumptions C42_serialiser_panics_exactly_on_arrays.
 
 (* Variant, by induction over the nesting: any amount of fuel above the depth works *)
 Theorem C42_variant_any_depth : forall n v, (vdepth v <= n)%nat ->
